@@ -1,5 +1,5 @@
 """Shared machinery of the /verif checks: build, facts, model driver, audit, evidence, reports."""
-import fcntl, hashlib, json, os, re, subprocess, sys, time
+import fcntl, hashlib, json, os, re, shutil, subprocess, sys, time
 
 VERIF = os.path.dirname(os.path.dirname(os.path.abspath(__file__)))
 REPO = os.environ.get("VERIF_REPO", "/repo")
@@ -47,6 +47,11 @@ class Ctx:
         self.t0 = time.time()
         self.dir = os.path.join(BUILD, "run", pid)
         os.makedirs(self.dir, exist_ok=True)
+        # two runs of the SAME property share this directory and the replay / evidence files: the second one waits for the first
+        # (runs of different properties proceed in parallel; only the build is serialised, behind build/build.lock)
+        import fcntl
+        self._plock = open(os.path.join(BUILD, "run", pid + ".lock"), "w")
+        fcntl.flock(self._plock, fcntl.LOCK_EX)
         os.makedirs(os.path.join(BUILD, "replay"), exist_ok=True)
         self.violations = []        # (replay path, summary, no_input)
         self.known = []             # KNOWN-FINDING lines
@@ -69,9 +74,21 @@ class Ctx:
 
 def build_go(ctx):
     os.makedirs(BIN, exist_ok=True)
-    rc, out = sh(["go", "build", "-o", BIN + "/", "./cmd/..."], cwd=os.path.join(VERIF, "harness"), env=GOENV, timeout=600)
+    # build into a staging directory and move each binary into place atomically: another check (of another property) may be
+    # executing build/bin/qh right now; an unchanged binary is left alone
+    stage = os.path.join(BUILD, "bin.stage")
+    os.makedirs(stage, exist_ok=True)
+    rc, out = sh(["go", "build", "-o", stage + "/", "./cmd/..."], cwd=os.path.join(VERIF, "harness"), env=GOENV, timeout=600)
     if rc != 0:
         return False, out
+    import filecmp
+    for fn in os.listdir(stage):
+        src, dst = os.path.join(stage, fn), os.path.join(BIN, fn)
+        if os.path.exists(dst) and filecmp.cmp(src, dst, shallow=False):
+            continue
+        tmp = dst + ".new.%d" % os.getpid()
+        shutil.copy2(src, tmp)
+        os.replace(tmp, dst)
     return True, out
 
 
